@@ -28,4 +28,13 @@ def storeReach : List (String × String × String) := [("AUTHORIZATION", "PASS",
 /-- distinct (base,bitSize) of the strconv.ParseInt calls -/
 def parseIntArgs : List String := ["10,32"]
 
+/-- what the accepting exit of the STLS clause does to the connection, in source order (see harness/cmd/extract/tls.go) -/
+def stlsSwitch : List String := ["wrap", "handshake", "conn", "reader", "state"]
+
+/-- the struct declaring the *tls.ConnectionState field the STLS clause assigns: perSession | perServer -/
+def tlsStateScope : String := "perServer"
+
+/-- the condition(s) under which the command loop sends the capability line STLS -/
+def capaStlsCond : List String := ["$r.tlsConfig != nil && $r.tlsState == nil && !$r.config.ForceTLS"]
+
 end Ibx.Gen.Pop3
